@@ -3,6 +3,7 @@
 package gc
 
 import (
+	"net/http"
 	"context"
 	"fmt"
 	"math"
@@ -47,6 +48,7 @@ type res struct {
 
 func start() (*pdserver.PD, *gate.Sched, error) {
 	sched := gate.New()
+	pdserver.WithAPI = true // the administrator's HTTP API is one of the ways a registration is removed
 	pd, err := pdserver.Start(sched, true)
 	if err != nil {
 		return nil, nil, err
@@ -425,6 +427,19 @@ func svcReplay(args map[string]string) error {
 				}
 				if serr != nil {
 					return fmt.Errorf("cannot advance the TSO clock: %v", serr)
+				}
+			case "Delete":
+				// the administrator's removal through the HTTP API
+				svc := stp.Str(0)
+				req, rerr := http.NewRequest("DELETE", pd.Cfg.ClientUrls+"/pd/api/v1/gc/safepoint/"+svc, nil)
+				if rerr != nil {
+					return rerr
+				}
+				resp, herr := http.DefaultClient.Do(req)
+				ev["svc"] = svc
+				ev["err"] = herr != nil || resp.StatusCode != 200
+				if resp != nil {
+					resp.Body.Close()
 				}
 			case "Update":
 				svc, sp, j := stp.Str(0), stp.Num(1), stp.Num(2)
